@@ -898,3 +898,10 @@ Proof. intros H E. specialize (H E). discriminate. Qed.
    transition mutex is taken (counted by the translator in the source of this run) *)
 Lemma state_read_under_mutex : env_prelock_state_reads = 0.
 Proof. vm_compute. reflexivity. Qed.
+
+(* in the source of this run nothing leaves RpcServer.ControlEnvironment between the requested
+   TryTransition and the fallback to ERROR, and nothing after the transition looks at the caller's
+   context (counted by the translator): p_control has no such input *)
+Lemma control_fallback_unconditional :
+  env_control_exits_before_fallback = 0 /\ env_control_ctx_uses_after_transition = 0.
+Proof. vm_compute. split; reflexivity. Qed.
